@@ -6,6 +6,8 @@ Driver glue for `Model/Tabular.lean`.  Cells are opaque wire values.
     rdr  ::= [csv [name…] [[cell…]…]]
            | [pq [name…] [[[cell…]…]…]]            -- row groups
            | [frame [name…] [idx…] [[cell…]…]]
+           | [series sname name|none [idx…] [cell…]]   -- DataFrameReader.from_series
+           | [array name [cell…]]                      -- DataFrameReader.from_array
            | [mapped rdr [[old new]…]]
            | [joined [rdr…]]
            | [computed rdr name fn]
@@ -13,6 +15,8 @@ Driver glue for `Model/Tabular.lean`.  Cells are opaque wire values.
     cols ::= none | [name…]
     arg  ::= [frame [name…] [row…]] | [dict row] | [dicts [row…]] | [record row]
     row  ::= [[name cell]…]
+    wspec ::= [csv [col…] size kind sep old] | [pq [col…] size kind]
+    old  ::= none | [sep [name…] [[cell…]…]]
 -/
 namespace Mk.Ops.Tabular
 open Mk Mk.Tabular V
@@ -63,6 +67,17 @@ partial def rdr? : V → Option (Reader V)
       if idx.length ≠ ls.length then none else
       let rows ← ls.mapM (zipRow ns)
       some (frameReader ⟨ns, idx.zip rows⟩)
+  | list [atom "series", sn, n, idx, cells] => do
+      let sn ← toStr? sn
+      let n ← (match n with | atom "none" => some none | v => (toStr? v).map some)
+      let idx ← toList? toNat? idx
+      let cells ← toList? some cells
+      if idx.length ≠ cells.length then none else
+      some (seriesReader sn n (idx.zip cells))
+  | list [atom "array", n, cells] => do
+      let n ← toStr? n
+      let cells ← toList? some cells
+      some (arrayReader n cells)
   | list [atom "mapped", r, m] => do
       let r ← rdr? r
       let m ← toList? (toPair? toStr? toStr?) m
@@ -196,6 +211,99 @@ def opEmitted : List V → Option V
       some (list ((emitted size args).map list))
   | _ => none
 
+/-! ### extension: one-shot `write`, writer objects under `auto_finalize`, separators -/
+
+def wframe? : V → Option (WFrame V)
+  | list [ns, rows] => do
+      let ns ← names? ns
+      let rows ← toList? row? rows
+      some ⟨ns, rows⟩
+  | _ => none
+
+def pqBack (disk : Option (PqDisk V)) : V :=
+  match (pqDiskReader disk).bind (fun r => r.read none), disk with
+  | some d, some pd => list [ofDF d, ofList ofNat (pd.file.groups.map List.length)]
+  | _, _ => atom "reject-read"
+
+/-- `tab-write1 csv|pq [col…] size old [[name…] [row…]]` → what the associated reader
+reads back after `from_suffix(…, buffer_size=size).write(frame)` (`old`: previous
+content of a text file, `none` otherwise) -/
+def opWrite1 : List V → Option V
+  | [atom "csv", cs, size, old, f] => do
+      let cs ← names? cs
+      let size ← toNat? size
+      let old ← csvFile? old
+      let f ← wframe? f
+      some (match writeFromSuffix (csvWrite1 cs) size old f with
+        | some disk => (match (csvDiskReader disk).bind (fun r => r.read none) with
+            | some d => ofDF d
+            | none => atom "reject-read")
+        | none => reject)
+  | [atom "pq", cs, size, _old, f] => do
+      let cs ← names? cs
+      let size ← toNat? size
+      let f ← wframe? f
+      some (match writeFromSuffix (pqWrite1 cs) size (none : Option (PqDisk V)) f with
+        | some disk => pqBack disk
+        | none => reject)
+  | _ => none
+
+abbrev Store := Option (SepFile V) ⊕ Option (PqDisk V)
+
+def inlWriter (w : Writer (Option (SepFile V)) V) : Writer Store V where
+  init := fun s => match s with | .inl a => (w.init a).map Sum.inl | .inr _ => none
+  append := fun s f => match s with | .inl a => (w.append a f).map Sum.inl | .inr _ => none
+  fin := fun s => match s with | .inl a => (w.fin a).map Sum.inl | .inr _ => none
+
+def inrWriter (w : Writer (Option (PqDisk V)) V) : Writer Store V where
+  init := fun s => match s with | .inr a => (w.init a).map Sum.inr | .inl _ => none
+  append := fun s f => match s with | .inr a => (w.append a f).map Sum.inr | .inl _ => none
+  fin := fun s => match s with | .inr a => (w.fin a).map Sum.inr | .inl _ => none
+
+def sepFile? : V → Option (Option (SepFile V))
+  | atom "none" => some none
+  | list [sep, ns, ls] => do
+      let sep ← toStr? sep
+      let ns ← names? ns
+      let ls ← toList? (toList? some) ls
+      some (some ⟨sep, ⟨ns, ls⟩⟩)
+  | _ => none
+
+/-- a writer spec: the writer object with its initial state, and how its file is read back -/
+def wspec? : V → Option ((Sess (Option (WFrame V) × Store) V × (Option (WFrame V) × Store)) × (Store → V))
+  | list [atom "csv", cs, size, k, sep, old] => do
+      let cs ← names? cs
+      let size ← toNat? size
+      let k ← kind? k
+      let sep ← toStr? sep
+      let old ← sepFile? old
+      some ((fromSuffixSess (inlWriter (csvWriterSep cs sep)) k size, (none, Sum.inl old)),
+        fun st => match st with
+          | .inl disk => (match (csvAssocReader sep disk).bind (fun r => r.read none) with
+              | some d => ofDF d
+              | none => atom "reject-read")
+          | .inr _ => atom "reject-read")
+  | list [atom "pq", cs, size, k] => do
+      let cs ← names? cs
+      let size ← toNat? size
+      let k ← kind? k
+      some ((fromSuffixSess (inrWriter (pqWriter cs)) k size, (none, Sum.inr none)),
+        fun st => match st with
+          | .inr disk => pqBack disk
+          | .inl _ => atom "reject-read")
+  | _ => none
+
+/-- `tab-auto [wspec…] [[i arg]…]` → per writer, what its associated reader reads back
+after `with auto_finalize(writers): writers[i].append_data(arg); …`, or `reject` -/
+def opAuto : List V → Option V
+  | [specs, prog] => do
+      let specs ← toList? wspec? specs
+      let prog ← toList? (toPair? toNat? arg?) prog
+      some (match runAuto (specs.map (fun s => s.1)) prog with
+        | some out => list ((specs.zip out).map (fun so => so.1.2 so.2.2))
+        | none => reject)
+  | _ => none
+
 end Mk.Ops.Tabular
 
 namespace Mk.Ops
@@ -203,6 +311,7 @@ open Mk.Ops.Tabular
 
 def tabularOps : List (String × (List V → Option V)) :=
   [("tab-names", opNames), ("tab-read", opRead), ("tab-chunked", opChunked), ("tab-chunks", opChunks),
-   ("tab-spec-select", opSpecSelect), ("tab-wr-csv", opWrCsv), ("tab-wr-pq", opWrPq), ("tab-emitted", opEmitted)]
+   ("tab-spec-select", opSpecSelect), ("tab-wr-csv", opWrCsv), ("tab-wr-pq", opWrPq), ("tab-emitted", opEmitted),
+   ("tab-write1", opWrite1), ("tab-auto", opAuto)]
 
 end Mk.Ops
